@@ -580,6 +580,22 @@ theorem gen_vec_resize (c : Cfg) (v : VS) (n : Nat) (x : Elem) (w : W) (hl : v.l
       simp only [dropElem_bad]
       exact h3
 
+/-- `Vec::shrink_to_fit` as translated is the model's `shrinkToFit` (`none` = panic) -/
+theorem gen_vec_shrink_to_fit (c : Cfg) (v : VS) (w : W) (hb : c.esz * v.cap < USIZE) (hlim : c.esz * v.cap ≤ c.allocLimit) :
+    Gen.Fn.vec_shrink_to_fit c (v, w) =
+      match shrinkToFit c v with
+      | some v' => ((v', w), .ok ())
+      | none => ((v, w), .panic) := by
+  unfold Gen.Fn.vec_shrink_to_fit
+  simp only [gen_vec_capacity, pureW, bindW]
+  by_cases h : capOf c v = v.len
+  · have hb' : (capOf c v != v.len) = false := by simp [h]
+    simp [hb', shrinkToFit, h]
+  · have hb' : (capOf c v != v.len) = true := by simpa using h
+    simp only [hb', if_true, liftV, gen_rv_shrink_to_fit c v hb hlim h]
+    cases shrinkToFit c v <;> rfl
+
+#print axioms gen_vec_shrink_to_fit
 #print axioms gen_vec_len
 #print axioms gen_vec_capacity
 #print axioms gen_vec_is_empty
